@@ -5,6 +5,7 @@ props=[json.loads(l) for l in open('/verif/properties.jsonl')]
 CLAIMED={
  'C01':('exploration','callback/store monitor over adversarial inbound histories on the real engine'),
  'C04':('exploration','recovery model built from the stub peer\'s own actions; ResendRequest rules + end-to-end delivery'),
+ 'C06':('exploration','defects planted in flight by the stub peer in every logged-on state; non-delivery + reaction-for-one-of-the-defects oracle'),
  'C20':('exploration','timing oracle on the real run loop with real timers on simulated time'),
 }
 extra=json.load(open('/verif/claimed.json')) if False else {}
